@@ -90,19 +90,22 @@ Definition out_nsp (x : out) : option nsname :=
 
 Definition tbl (s : server) (c : N) (b : nsname) : option N := alookup b (table s c).
 
-(** the part of the server state that belongs to namespace b *)
+(** the part of the server state that belongs to namespace b (plus which connections are closed) *)
+Definition closed (s : server) (c : N) : bool := sc_closed (sv_conn s c).
 Definition view_eq (b : nsname) (s1 s2 : server) : Prop :=
-  sv_nsp s1 b = sv_nsp s2 b /\ forall c, tbl s1 c b = tbl s2 c b.
+  sv_nsp s1 b = sv_nsp s2 b /\ (forall c, tbl s1 c b = tbl s2 c b) /\ (forall c, closed s1 c = closed s2 c).
 
 Lemma view_refl b s : view_eq b s s.
-Proof. split; auto. Qed.
+Proof. repeat split; auto. Qed.
 Lemma view_sym b s1 s2 : view_eq b s1 s2 -> view_eq b s2 s1.
-Proof. intros [H1 H2]; split; auto. Qed.
+Proof. intros [H1 [H2 H3]]; repeat split; auto. Qed.
 Lemma view_trans b s1 s2 s3 : view_eq b s1 s2 -> view_eq b s2 s3 -> view_eq b s1 s3.
-Proof. intros [H1 H2] [H3 H4]; split; [congruence | intros; now rewrite H2]. Qed.
+Proof.
+  intros [H1 [H2 H3]] [H4 [H5 H6]]; repeat split; [congruence | intros; now rewrite H2 | intros; now rewrite H3].
+Qed.
 
 Lemma view_set_nsp_other b a s x : a <> b -> view_eq b (set_nsp s a x) s.
-Proof. intros H. split; simpl; [now apply upd_other | reflexivity]. Qed.
+Proof. intros H. repeat split; simpl; [now apply upd_other]. Qed.
 
 Lemma tbl_set_table s c t c' b :
   tbl (set_table s c t) c' b = if c =? c' then alookup b t else tbl s c' b.
@@ -111,11 +114,17 @@ Proof.
   destruct (c =? c'); reflexivity.
 Qed.
 
+Lemma closed_set_table s c t c' : closed (set_table s c t) c' = closed s c'.
+Proof.
+  unfold closed, set_table; simpl. unfold updN. destruct (N.eqb_spec c c'); subst; reflexivity.
+Qed.
+
 Lemma view_set_table_other b s c t :
   alookup b t = tbl s c b -> view_eq b (set_table s c t) s.
 Proof.
-  intros H. split; [reflexivity|]. intros c'. rewrite tbl_set_table.
-  destruct (N.eqb_spec c c'); subst; auto.
+  intros H. repeat split.
+  - intros c'. rewrite tbl_set_table. destruct (N.eqb_spec c c'); subst; auto.
+  - intros c'. apply closed_set_table.
 Qed.
 
 Lemma tbl_set_nsp s a x c b : tbl (set_nsp s a x) c b = tbl s c b.
@@ -144,8 +153,13 @@ Proof.
   - (* SVerdict *)
     unfold s_verdict. destruct (existsb _ _); [|apply view_refl].
     destruct ok; simpl; [|now apply view_set_nsp_other].
-    eapply view_trans; [apply view_set_table_other | apply view_set_nsp_other; auto].
-    rewrite tbl_set_nsp. unfold tbl. now apply alookup_aset_other.
+    assert (V1 : forall x, view_eq b (set_table (set_nsp s a x) c (aset a sid (table s c))) s).
+    { intros x. eapply view_trans; [apply view_set_table_other | apply view_set_nsp_other; auto].
+      rewrite tbl_set_nsp. unfold tbl. now apply alookup_aset_other. }
+    destruct (sc_closed (sv_conn s c)); simpl; [|apply V1].
+    unfold sock_close; simpl.
+    eapply view_trans; [apply view_set_table_other | eapply view_trans; [apply view_set_nsp_other; auto | apply V1]].
+    rewrite tbl_set_nsp. unfold tbl. now apply alookup_aremove_other.
   - (* SEmit *)
     unfold s_emit. destruct (sock_of _ _ _); [|apply view_refl].
     destruct ack; simpl; [now apply view_set_nsp_other | apply view_refl].
@@ -173,7 +187,8 @@ Proof.
     + unfold s_ack. destruct (find_sock _ _); [|constructor].
       destruct (p_id p); [|constructor]. destruct (take_ack _ _) as [[? ?]|]; repeat constructor.
     + unfold s_connect. destruct (ns_exists _); repeat constructor.
-  - unfold s_verdict. destruct (existsb _ _); [|constructor]. destruct ok; repeat constructor.
+  - unfold s_verdict. destruct (existsb _ _); [|constructor]. destruct ok; [|repeat constructor].
+    destruct (sc_closed _); simpl; repeat constructor.
   - unfold s_emit. destruct (sock_of _ _ _); [|constructor]. destruct ack; repeat constructor.
   - unfold s_bcast; simpl. apply Forall_forall. intros x Hx. apply in_map_iff in Hx as [k [<- _]]. reflexivity.
   - unfold s_join. destruct (sock_of _ _ _); constructor.
@@ -183,23 +198,24 @@ Qed.
 (** ** A step scoped to b reads only the part of the state that belongs to b *)
 Lemma sock_of_view b s1 s2 c : view_eq b s1 s2 -> sock_of s1 c b = sock_of s2 c b.
 Proof.
-  intros [H1 H2]. unfold sock_of. specialize (H2 c). unfold tbl in H2. rewrite H2, H1. reflexivity.
+  intros [H1 [H2 _]]. unfold sock_of. specialize (H2 c). unfold tbl in H2. rewrite H2, H1. reflexivity.
 Qed.
 
 Lemma view_set_nsp_same b s1 s2 x : view_eq b s1 s2 -> view_eq b (set_nsp s1 b x) (set_nsp s2 b x).
-Proof. intros [H1 H2]. split; simpl; [now rewrite !upd_same | exact H2]. Qed.
+Proof. intros [H1 [H2 H3]]. repeat split; simpl; [now rewrite !upd_same | exact H2 | exact H3]. Qed.
 
 Lemma view_set_table_same b s1 s2 c t1 t2 :
   view_eq b s1 s2 -> alookup b t1 = alookup b t2 -> view_eq b (set_table s1 c t1) (set_table s2 c t2).
 Proof.
-  intros [H1 H2] Ht. split; [exact H1|]. intros c'. rewrite !tbl_set_table.
-  destruct (c =? c'); auto.
+  intros [H1 [H2 H3]] Ht. repeat split; [exact H1 | |].
+  - intros c'. rewrite !tbl_set_table. destruct (c =? c'); auto.
+  - intros c'. rewrite !closed_set_table. auto.
 Qed.
 
 Lemma closes_view o b s1 s2 :
   sop_nsp o = Some b -> view_eq b s1 s2 -> closes o s1 = closes o s2.
 Proof.
-  intros Hs [H1 H2]. destruct o; simpl in *; auto. inversion Hs; subst.
+  intros Hs [H1 [H2 _]]. destruct o; simpl in *; auto. inversion Hs; subst.
   specialize (H2 c). unfold tbl in H2. now rewrite H2.
 Qed.
 
@@ -207,7 +223,7 @@ Lemma sstep_view o b s1 s2 :
   sop_nsp o = Some b -> closes o s1 = None -> view_eq b s1 s2 ->
   view_eq b (fst (sstep o s1)) (fst (sstep o s2)) /\ snd (sstep o s1) = snd (sstep o s2).
 Proof.
-  intros Hs Hc V. pose proof V as [Vn Vt].
+  intros Hs Hc V. pose proof V as [Vn [Vt Vc']].
   destruct o; simpl in *; inversion Hs; subst; clear Hs.
   - unfold s_recv. set (n := norm_hdr (p_nsp p)) in *.
     pose proof (Vt c) as Vc. unfold tbl in Vc. rewrite <- Vc.
@@ -226,8 +242,15 @@ Proof.
     + unfold s_connect. rewrite Vn. destruct (ns_exists _); simpl; auto. split; auto.
       now apply view_set_nsp_same.
   - unfold s_verdict. rewrite Vn. destruct (existsb _ _); auto.
-    destruct ok; simpl; split; auto; [|now apply view_set_nsp_same].
-    apply view_set_table_same; [now apply view_set_nsp_same|]. now rewrite !alookup_aset_same.
+    destruct ok; simpl; [|split; auto; now apply view_set_nsp_same].
+    pose proof (Vt c) as Vc. unfold tbl in Vc. pose proof (Vc' c) as Vk. unfold closed in Vk. rewrite <- Vk.
+    assert (V1 : forall x, view_eq b (set_table (set_nsp s1 b x) c (aset b sid (table s1 c)))
+                                     (set_table (set_nsp s2 b x) c (aset b sid (table s2 c)))).
+    { intros x. apply view_set_table_same; [now apply view_set_nsp_same|]. now rewrite !alookup_aset_same. }
+    destruct (sc_closed (sv_conn s1 c)); simpl; [|split; auto].
+    split; auto. unfold sock_close; simpl. rewrite !upd_same.
+    apply view_set_table_same; [apply view_set_nsp_same; apply V1|].
+    now rewrite !alookup_aremove_same.
   - unfold s_emit. rewrite (sock_of_view _ _ _ _ V). destruct (sock_of _ _ _); auto. rewrite Vn.
     destruct ack; simpl; auto. split; auto. now apply view_set_nsp_same.
   - unfold s_bcast; simpl. rewrite Vn. auto.
@@ -355,7 +378,7 @@ Proof.
   destruct (sop_nsp o) as [a|] eqn:Hs.
   2:{ destruct o; simpl in Hs; discriminate. }
   destruct (nseqb a n) eqn:Ean.
-  2:{ apply nseqb_false in Ean. destruct (sstep_frame o s a n Hs Hc Ean) as [_ Ht]. rewrite Ht in H1. congruence. }
+  2:{ apply nseqb_false in Ean. destruct (sstep_frame o s a n Hs Hc Ean) as [_ [Ht _]]. rewrite Ht in H1. congruence. }
   apply nseqb_eq in Ean; subst a.
   destruct o; simpl in *; inversion Hs; subst; clear Hs.
   - exfalso. unfold s_recv in H1. set (n := norm_hdr (p_nsp p)) in *.
@@ -373,9 +396,15 @@ Proof.
     + unfold s_connect in H1. destruct (ns_exists _); simpl in H1; [rewrite tbl_set_nsp in H1|]; congruence.
   - unfold s_verdict in H1. destruct (existsb (N.eqb c0) _) eqn:Eh; [|simpl in H1; congruence].
     destruct ok; simpl in H1.
-    + rewrite tbl_set_table in H1. destruct (N.eqb_spec c0 c).
-      * subst c0. rewrite alookup_aset_same in H1. inversion H1; subst. auto.
-      * rewrite tbl_set_nsp in H1. congruence.
+    + destruct (sc_closed (sv_conn s c0)); simpl in H1.
+      * exfalso. unfold sock_close in H1; simpl in H1. rewrite tbl_set_table in H1.
+        destruct (N.eqb_spec c0 c).
+        -- now rewrite alookup_aremove_same in H1.
+        -- rewrite tbl_set_nsp, tbl_set_table in H1. destruct (N.eqb_spec c0 c); [contradiction|].
+           rewrite tbl_set_nsp in H1. congruence.
+      * rewrite tbl_set_table in H1. destruct (N.eqb_spec c0 c).
+        -- subst c0. rewrite alookup_aset_same in H1. inversion H1; subst. auto.
+        -- rewrite tbl_set_nsp in H1. congruence.
     + rewrite tbl_set_nsp in H1. congruence.
   - exfalso. unfold s_emit in H1. destruct (sock_of _ _ _); [|simpl in H1; congruence].
     destruct ack; simpl in H1; [rewrite tbl_set_nsp in H1|]; congruence.
@@ -430,7 +459,7 @@ Lemma disconnect_one_keeps_others_recv c p s sid b :
 Proof.
   intros T E Hb. simpl.
   assert (Hc : closes (SRecv c p) s = None) by (simpl; now rewrite E, T).
-  destruct (sstep_frame (SRecv c p) s _ b eq_refl Hc Hb) as [Hn Ht]. simpl in *.
+  destruct (sstep_frame (SRecv c p) s _ b eq_refl Hc Hb) as [Hn [Ht Hcl]]. simpl in *.
   repeat split; auto.
   - unfold s_recv. rewrite E, T. simpl. unfold updN. now rewrite N.eqb_refl.
   - unfold s_recv. rewrite E, T. unfold sock_close. simpl. rewrite tbl_set_table, N.eqb_refl.
@@ -444,7 +473,7 @@ Lemma disconnect_one_keeps_others_srv c a s b :
   sc_closed (sv_conn s' c) = sc_closed (sv_conn s c).
 Proof.
   intros Hb. simpl.
-  destruct (sstep_frame (SDisc c a) s a b eq_refl eq_refl Hb) as [Hn Ht]. simpl in *.
+  destruct (sstep_frame (SDisc c a) s a b eq_refl eq_refl Hb) as [Hn [Ht Hcl]]. simpl in *.
   repeat split; auto.
   unfold s_disc. destruct (sock_of s c a); [|reflexivity]. simpl. unfold updN. now rewrite N.eqb_refl.
 Qed.
